@@ -332,7 +332,7 @@ func mutateBytes(rng *vbase.Rng, raw []byte, other []byte) []byte {
 func verifWireFuzz(p vbase.Params, r *vbase.Result) {
 	r.Rule = "byte-level mutation of the marshalled C10.wire corpus (1..4 of: bit flip, byte overwrite, truncation, deletion, slice duplication, splice with another message, oversized varint, random insertion), " +
 		"delivered to the REAL serviceImpl handlers of replicas in states fresh / mid / timed out / deep x schemes x cache on/off x both timeout rules, several messages in a row on the same replica; bytes that do not decode are " +
-		"dropped as the transport would; oracles after every delivery: no panic, handler returns (30 s watchdog), view / high QC view / high TC view / committed view never decrease, the held high QC and high TC are genuine " +
+		"dropped as the transport would; oracles after every delivery: no panic, handler returns (120 s watchdog), view / high QC view / high TC view / committed view never decrease, the held high QC and high TC are genuine " +
 		"certificates (sign-log oracle); non-trivial: the mutated bytes decode; distinct: the mutated bytes"
 	per := 1500 // per configuration (configurations are sharded)
 	if p.Thorough() {
@@ -819,7 +819,7 @@ func verifWire(p vbase.Params, r *vbase.Result) {
 func watch(p vbase.Params, r *vbase.Result, tag, kind string) (stop func()) {
 	done := make(chan struct{})
 	go func() {
-		t := time.NewTimer(30 * time.Second)
+		t := time.NewTimer(120 * time.Second)
 		defer t.Stop()
 		select {
 		case <-done:
@@ -835,7 +835,7 @@ func watch(p vbase.Params, r *vbase.Result, tag, kind string) (stop func()) {
 					break
 				}
 			}
-			r.Violate(vbase.Sig("handler-stuck", "msg", kind, "site", site), fmt.Sprintf("a %s message keeps the replica's event loop thread busy for more than 30 s in %s (%s)", kind, site, tag), map[string]any{"message": tag})
+			r.Violate(vbase.Sig("handler-stuck", "msg", kind, "site", site), fmt.Sprintf("a %s message keeps the replica's event loop thread busy for more than 120 s in %s (%s)", kind, site, tag), map[string]any{"message": tag})
 			_ = r.Write(p.Out)
 			os.Exit(0)
 		}
